@@ -213,6 +213,7 @@ func (rb *Rebalancer) UpsertServer(u *url.URL, options ...ServerOption) error {
 		return err
 	}
 	rb.reset()
+	verifEmit("rb.upsert", rb, u.String(), weight)
 	return nil
 }
 
@@ -234,6 +235,7 @@ func (rb *Rebalancer) removeServer(u *url.URL) error {
 	}
 	rb.servers = append(rb.servers[:i], rb.servers[i+1:]...)
 	rb.reset()
+	verifEmit("rb.remove", rb, u.String())
 	return nil
 }
 
@@ -287,10 +289,12 @@ func (rb *Rebalancer) adjustWeights() {
 	if rb.markServers() {
 		if rb.setMarkedWeights() {
 			rb.setTimer()
+			verifEmit("rb.adjust", rb, "marked")
 		}
 	} else { // No servers that are different by their quality, so converge weights
 		if rb.convergeWeights() {
 			rb.setTimer()
+			verifEmit("rb.adjust", rb, "converge")
 		}
 	}
 }
